@@ -144,3 +144,43 @@ def units(prop):
              trusted=["get_all_subclass_paths(cls): the import paths of the subclasses that exist when it is called (7 concrete pools)"]),
         Unit(prop, "jsonargparse._typehints:normalize_import_path", nip_setup, nip_post, None, expect_cover=("return",)),
     ]
+
+
+# ------------------------------------------------------------------------------------------------ import_object
+# the resolution rule that get_import_path's round trip relies on: "a.b.C" is attribute C of module a.b; when a.b is not a module,
+# attribute C of attribute b of module a (a class nested in a class / a class method); anything that is not a dotted path of identifiers is refused
+def io_setup(ctx):
+    name = ["pkg.mod.K", "pkg.mod.Outer.K", "mod.K", "K", "pkg.mod.", "pkg.mod.1x", "pkg..K", "nomod.K", "pkg.nomod.K", "pkg.mod.missing", 7][ctx.choose(11, "name")]
+    K, OK_ = Rec("class K"), Rec("class Outer.K")
+    outer = Rec("class Outer", attrs={"K": OK_})
+    mods = {"pkg.mod": Rec("module pkg.mod", attrs={"K": K, "Outer": outer}), "mod": Rec("module mod", attrs={"K": K}), "pkg": Rec("module pkg", attrs={"mod": None})}
+    mods["pkg"].attrs["mod"] = mods["pkg.mod"]
+
+    def imp(c, a, k):
+        c.event("import", a[0], tuple(k.get("fromlist", ())))
+        if a[0] not in mods:
+            raise PyRaise(ExcVal("ModuleNotFoundError", (a[0],), origin="__import__"))
+        return mods[a[0]]
+
+    return Setup(env={"name": name}, calls={"__import__": imp}, data=dict(name=name, K=K, OK_=OK_))
+
+
+def io_expected(d):
+    return {"pkg.mod.K": d["K"], "pkg.mod.Outer.K": d["OK_"], "mod.K": d["K"]}.get(d["name"])
+
+
+def io_post(ctx, st, result):
+    d = st.data
+    ctx.oblige("post", f"the-object-at-the-end-of-the-dotted-path(longest module prefix,then attributes)[{d['name']!r}]", io_expected(d) is not None and result is io_expected(d))
+
+
+def io_raises(ctx, st, exc):
+    d = st.data
+    bad_format = not isinstance(d["name"], str) or d["name"] in ("K", "pkg.mod.", "pkg.mod.1x", "pkg..K")
+    want = "ValueError" if bad_format else {"nomod.K": "ModuleNotFoundError", "pkg.nomod.K": "AttributeError", "pkg.mod.missing": "AttributeError"}.get(d["name"])
+    ctx.oblige("raises", f"not-a-dotted-path-of-identifiers=>ValueError;unknown-module=>ModuleNotFoundError;unknown-attribute=>AttributeError[{d['name']!r}](got {exc.cls})", want is not None and exc.cls == want)
+
+
+def import_object_unit(prop):
+    return Unit(prop, "jsonargparse._util:import_object", io_setup, io_post, io_raises, expect_cover=("return", "raise:ValueError", "raise:ModuleNotFoundError", "raise:AttributeError"),
+                trusted=["__import__(module, fromlist=[name]) returns the module object or raises ModuleNotFoundError", "str.isidentifier / rsplit evaluated by CPython on the concrete names"])
